@@ -5,7 +5,12 @@ package main
 //   P n v... # n v... # <0|1>                                  encodeKey(a) == encodeKey(b) on the real code
 //   J <config> # <registrations> # <ops with observed results> public API: Execute / RegisterTable / UpsertTable /
 //                                                              Delete / Emit / EmitSync
+//   K <config> # <registrations> # <goroutine 1: ops with observed results> # ... # <probes after all returned>
+//                                                              several goroutines writing key-disjoint parts of one table
 //   C <versions> <with deletes 0|1> # <observed versions> # <final>   one writer, one reader, concurrently
+// <config> = <FROM alias|-> <joins> { table I|L <alias|-> <pairs> { <left of => <right of => } } S <select list> <where>;
+//            ON fields as written: "name" or "qualifier.name"
+// <registrations> = <n> { table <A | nkeys keys...> <nrows> rows... }   A: RegisterTable without key fields
 //   G <n> # rows (key, expected group by the harness' own table) # groups   GROUP BY a joined column
 // Value tokens: N | I<decimal> | F<m>:<e> (the float m*2^e, m odd or 0) | S<hex> (S- = "") | B0 | B1 ;
 // a missing map key is simply not listed. Maps: { k v k v } (keys sorted), nested for the alias bindings.
@@ -14,6 +19,7 @@ import (
 	"encoding/hex"
 	"fmt"
 	"math"
+	"runtime"
 	"sort"
 	"strconv"
 	"strings"
@@ -330,6 +336,21 @@ func runC16(tier string, seed uint64, o *Out) error {
 			o.Count(t)
 		}
 	}
+	// ---------------- (3b) concurrent writers on key-disjoint parts of one table
+	nK := 4
+	if thorough {
+		nK = 40
+	}
+	for i := 0; i < nK; i++ {
+		l, tags, err := c16Writers(rng, thorough)
+		if err != nil {
+			return err
+		}
+		o.Line("%s", l)
+		for _, t := range tags {
+			o.Count(t)
+		}
+	}
 	// ---------------- (4) concurrent writer / reader
 	nC := 6
 	if thorough {
@@ -426,24 +447,77 @@ func c16KeyPool(rng *RNG) []any {
 
 const c16Barrier = "BARRIER\x1f"
 
-func c16History(rng *RNG, idx int) (string, []string, error) {
+// the generated query: SQL text, the tokens of the configuration as written, the joins
+type c16Cfg struct {
+	sql      string
+	cfgTok   string // <FROM alias|-> <joins> {...} S ... <where>
+	srcAlias string
+	joins    []c16Join
+	swapped  bool
+	tags     []string
+}
+
+// the ON clause of one join as text. A table-side field is written alias.col (the alias is the table's own
+// name when the JOIN has none) or bare; a stream-side field s.col (FROM alias) or bare; normally
+// stream = table, with swap the two sides of one equality are exchanged (then at least one side carries
+// its qualifier, so the meaning is decided).
+func c16OnText(rng *RNG, j *c16Join, srcAlias string, swap bool) (sql string, toks []string, tags []string, swapped bool) {
+	swapAt := -1
+	if swap {
+		swapAt = rng.Intn(len(j.sfields))
+	}
+	for p := range j.sfields {
+		if p > 0 {
+			sql += " AND "
+		}
+		l, sq := j.sfields[p], false
+		if srcAlias != "" && rng.Bool() {
+			l, sq = srcAlias+"."+l, true
+		}
+		r, tq := j.tfields[p], false
+		if rng.Intn(3) != 0 {
+			r, tq = j.alias+"."+r, true
+		}
+		if p == swapAt || (swap && rng.Intn(3) == 0) {
+			if !sq && !tq {
+				r, tq = j.alias+"."+r, true
+			}
+			l, r = r, l
+			swapped = true
+			tags = append(tags, "on_table_equals_stream")
+		}
+		switch {
+		case tq && j.hasAlias:
+			tags = append(tags, "on_table_field_by_alias")
+		case tq:
+			tags = append(tags, "on_table_field_by_table_name")
+		default:
+			tags = append(tags, "on_table_field_bare")
+		}
+		if sq {
+			tags = append(tags, "on_stream_field_by_alias")
+		} else {
+			tags = append(tags, "on_stream_field_bare")
+		}
+		sql += l + " = " + r
+		toks = append(toks, l, r)
+	}
+	return
+}
+
+func c16GenConfig(rng *RNG, nj int, useWhere bool, swap bool) *c16Cfg {
 	var tags []string
 	srcAlias := ""
 	if rng.Bool() {
 		srcAlias = "s"
 	}
-	nj := 1
-	if rng.Intn(5) == 0 {
-		nj = 2
-	}
-	useEmit := rng.Intn(3) == 0
 	joins := make([]c16Join, nj)
-	sf := []string{"k1", "k2", "k3"}
+	sf := c16StreamFields
 	for i := range joins {
 		j := &joins[i]
 		j.table = []string{"t1", "t2"}[i]
 		j.alias = j.table
-		if rng.Intn(4) != 0 {
+		if rng.Intn(3) != 0 {
 			j.hasAlias = true
 			j.alias = []string{"m", "n"}[i]
 		}
@@ -501,7 +575,7 @@ func c16History(rng *RNG, idx int) (string, []string, error) {
 	}
 	// WHERE on a joined column
 	whereSQL, whereTok := "", "W0"
-	if !useEmit {
+	if useWhere {
 		j := joins[rng.Intn(nj)]
 		switch rng.Intn(7) {
 		case 0:
@@ -527,7 +601,9 @@ func c16History(rng *RNG, idx int) (string, []string, error) {
 		cfgTok = append(cfgTok, srcAlias)
 	}
 	cfgTok = append(cfgTok, strconv.Itoa(nj))
-	for _, j := range joins {
+	swappedAny := false
+	for i := range joins {
+		j := &joins[i]
 		kw := "JOIN"
 		if j.left {
 			kw = []string{"LEFT JOIN", "LEFT OUTER JOIN"}[rng.Intn(2)]
@@ -539,28 +615,24 @@ func c16History(rng *RNG, idx int) (string, []string, error) {
 			tags = append(tags, "inner")
 		}
 		sql += " " + kw + " " + j.table
+		aliasTok := "-"
 		if j.hasAlias {
 			sql += []string{" ", " AS "}[rng.Intn(2)] + j.alias
+			aliasTok = j.alias
+			tags = append(tags, "table_aliased")
+		} else {
+			tags = append(tags, "table_unaliased")
 		}
-		sql += " ON "
-		for p := range j.sfields {
-			if p > 0 {
-				sql += " AND "
-			}
-			l := j.sfields[p]
-			if srcAlias != "" && rng.Bool() {
-				l = srcAlias + "." + l
-			}
-			sql += l + " = " + j.alias + "." + j.tfields[p]
-		}
+		onSQL, onToks, onTags, sw := c16OnText(rng, j, srcAlias, swap)
+		swappedAny = swappedAny || sw
+		tags = append(tags, onTags...)
+		sql += " ON " + onSQL
 		lr := "I"
 		if j.left {
 			lr = "L"
 		}
-		cfgTok = append(cfgTok, j.table, lr, j.alias, strconv.Itoa(len(j.sfields)))
-		for p := range j.sfields {
-			cfgTok = append(cfgTok, j.sfields[p], j.tfields[p])
-		}
+		cfgTok = append(cfgTok, j.table, lr, aliasTok, strconv.Itoa(len(j.sfields)))
+		cfgTok = append(cfgTok, onToks...)
 		if len(j.sfields) == 2 {
 			tags = append(tags, "composite_key")
 		} else {
@@ -568,11 +640,26 @@ func c16History(rng *RNG, idx int) (string, []string, error) {
 		}
 	}
 	sql += whereSQL
+	return &c16Cfg{sql: sql, cfgTok: strings.Join(cfgTok, " ") + " " + selTok + " " + whereTok,
+		srcAlias: srcAlias, joins: joins, swapped: swappedAny, tags: tags}
+}
+
+var c16StreamFields = []string{"k1", "k2", "k3"}
+
+func c16History(rng *RNG, idx int) (string, []string, error) {
+	nj := 1
+	if rng.Intn(5) == 0 {
+		nj = 2
+	}
+	useEmit := rng.Intn(3) == 0
+	// one history in 16 writes some ON equality as table = stream
+	cfg := c16GenConfig(rng, nj, !useEmit, rng.Intn(16) == 0)
+	tags, joins, sql, sf := cfg.tags, cfg.joins, cfg.sql, c16StreamFields
 
 	s := streamsql.New(streamsql.WithDiscardLog())
 	defer s.Stop()
 	if err := s.Execute(sql); err != nil {
-		return "", nil, fmt.Errorf("Execute(%q): %v", sql, err)
+		return c16SetupFailure("execute", sql, err), append(tags, "setup_rejected"), nil
 	}
 	var mu sync.Mutex
 	got := map[int64]map[string]any{}
@@ -637,17 +724,19 @@ func c16History(rng *RNG, idx int) (string, []string, error) {
 		}
 		var src *stream.MemoryTableSource
 		var err error
-		if rng.Intn(3) == 0 {
+		explicit := rng.Intn(3) == 0
+		if explicit {
 			src, err = s.RegisterTable(j.table, rows, j.tfields...)
+			tags = append(tags, "key_fields_explicit")
 		} else {
 			src, err = s.RegisterTable(j.table, rows)
+			tags = append(tags, "key_fields_derived_from_on")
 		}
 		if err != nil {
-			return "", nil, fmt.Errorf("RegisterTable(%q): %v", sql, err)
+			return c16SetupFailure("register", sql, err), append(tags, "setup_rejected"), nil
 		}
 		srcs[j.table] = src
-		regTok = append(regTok, j.table, strconv.Itoa(len(j.tfields)))
-		regTok = append(regTok, j.tfields...)
+		regTok = append(regTok, c16RegKeys(j, explicit)...)
 		regTok = append(regTok, strconv.Itoa(len(rows)))
 		for _, r := range rows {
 			regTok = append(regTok, c16Row(r))
@@ -673,29 +762,6 @@ func c16History(rng *RNG, idx int) (string, []string, error) {
 		}
 		return r
 	}
-	barrier := func() error {
-		idctr++
-		id := idctr
-		r := map[string]any{"id": id}
-		for _, f := range sf {
-			r[f] = c16Barrier
-		}
-		s.Emit(r)
-		for i := 0; i < 4000; i++ {
-			mu.Lock()
-			_, ok := got[id]
-			mu.Unlock()
-			if ok {
-				return nil
-			}
-			if i < 200 {
-				time.Sleep(50 * time.Microsecond)
-			} else {
-				time.Sleep(time.Millisecond)
-			}
-		}
-		return fmt.Errorf("barrier row never reached the sink (%q)", sql)
-	}
 	resTok := func(m map[string]any, err error) string {
 		if err != nil {
 			return "X"
@@ -705,6 +771,62 @@ func c16History(rng *RNG, idx int) (string, []string, error) {
 		}
 		return "R " + c16Map(m)
 	}
+	arrived := func(id int64, wait time.Duration) (map[string]any, bool) {
+		deadline := time.Now().Add(wait)
+		for i := 0; ; i++ {
+			mu.Lock()
+			m, ok := got[id]
+			mu.Unlock()
+			if ok || time.Now().After(deadline) {
+				return m, ok
+			}
+			if i < 200 {
+				time.Sleep(50 * time.Microsecond)
+			} else {
+				time.Sleep(time.Millisecond)
+			}
+		}
+	}
+	// The barrier row (it matches the permanent barrier row of every table) is itself an operation of the
+	// history: an Emit whose result is judged like any other. The wait is bounded and always ends in an
+	// observation: if the row has not reached the sink in time, the same row goes through EmitSync (recorded
+	// as well); only if that one is kept -- the asynchronous row is merely late -- the wait goes on.
+	// Returns false when the barrier row was not delivered (the history ends there).
+	barrier := func() bool {
+		idctr++
+		id := idctr
+		r := map[string]any{"id": id}
+		for _, f := range sf {
+			r[f] = c16Barrier
+		}
+		s.Emit(r)
+		m, ok := arrived(id, 1500*time.Millisecond)
+		var probe string
+		if !ok {
+			r2 := map[string]any{}
+			for k, v := range r {
+				r2[k] = v
+			}
+			pm, perr := s.EmitSync(r2)
+			probe = resTok(pm, perr)
+			if perr == nil && pm != nil {
+				m, ok = arrived(id, 40*time.Second)
+			} else {
+				m, ok = arrived(id, 200*time.Millisecond)
+			}
+		}
+		if ok {
+			opTok = append(opTok, "E", c16Row(r), resTok(m, nil))
+		} else {
+			opTok = append(opTok, "E", c16Row(r), "D")
+			tags = append(tags, "barrier_not_delivered")
+		}
+		if probe != "" {
+			opTok = append(opTok, "Y", c16Row(r), probe)
+		}
+		return ok
+	}
+ops:
 	for n := 0; n < nops; n++ {
 		j := joins[rng.Intn(nj)]
 		switch r := rng.Intn(100); {
@@ -734,14 +856,22 @@ func c16History(rng *RNG, idx int) (string, []string, error) {
 			row := mkStreamRow()
 			id := idctr
 			s.Emit(row)
-			if err := barrier(); err != nil {
-				return "", nil, err
-			}
+			// the row precedes the barrier row: once that one is through, the row was processed (kept or
+			// dropped). Without a delivered barrier only "kept" is an observation (dropped vs late is
+			// unknown): the row is then left out and the history ends.
+			pos := len(opTok)
+			delivered := barrier()
 			mu.Lock()
-			m := got[id]
+			m, seen := got[id]
 			mu.Unlock()
-			opTok = append(opTok, "E", c16Row(row), resTok(m, nil))
-			tags = append(tags, "op_emit")
+			if delivered || seen {
+				rowTok := []string{"E", c16Row(row), resTok(m, nil)}
+				opTok = append(opTok[:pos], append(rowTok, opTok[pos:]...)...)
+				tags = append(tags, "op_emit")
+			}
+			if !delivered {
+				break ops
+			}
 		default:
 			row := mkStreamRow()
 			m, err := s.EmitSync(row)
@@ -749,9 +879,21 @@ func c16History(rng *RNG, idx int) (string, []string, error) {
 			tags = append(tags, "op_emitsync")
 		}
 	}
-	line := fmt.Sprintf("C16 J %s %s %s # %s # %s", strings.Join(cfgTok, " "), selTok, whereTok,
-		strings.Join(regTok, " "), strings.Join(opTok, " "))
+	line := fmt.Sprintf("C16 J %s # %s # %s", cfg.cfgTok, strings.Join(regTok, " "), strings.Join(opTok, " "))
 	return line, tags, nil
+}
+
+// a valid generated query / registration was rejected: a judged observation, not a harness error
+func c16SetupFailure(what, sql string, err error) string {
+	return fmt.Sprintf("C16 X %s %s %s", what, hx(sql), hx(err.Error()))
+}
+
+// <table> <A | nkeys keys...>
+func c16RegKeys(j c16Join, explicit bool) []string {
+	if !explicit {
+		return []string{j.table, "A"}
+	}
+	return append([]string{j.table, strconv.Itoa(len(j.tfields))}, j.tfields...)
 }
 
 func c16ID(v any) int64 {
@@ -764,6 +906,205 @@ func c16ID(v any) int64 {
 		return int64(x)
 	}
 	return -1
+}
+
+// Concurrent writers. 2-3 goroutines update ONE table at the same time, each only keys of its own (disjoint
+// modulo the key equality: goroutine g owns the numbers 1000g+i in any numeric type and the strings
+// "g<g>_<i>"), many rounds of UpsertTable / Delete / EmitSync-probe of its own keys; the table is
+// pre-filled so that an update that copies or rebuilds the index is long enough to overlap with another.
+// Every probe a goroutine makes is judged against its own sequence run alone on the model, and after all
+// goroutines returned every key is probed and judged against the abstract table after all the writes
+// (Props/C16.v C16_concurrent_writers: for EVERY interleaving of atomic operations what a key sees depends
+// only on the writes to that key). A lost update / resurrected row is a chk verdict.
+func c16Writers(rng *RNG, thorough bool) (string, []string, error) {
+	cfg := c16GenConfig(rng, 1, false, false)
+	tags := append([]string{"concurrent_writers"}, cfg.tags...)
+	j := cfg.joins[0]
+	s := streamsql.New(streamsql.WithDiscardLog())
+	defer s.Stop()
+	if err := s.Execute(cfg.sql); err != nil {
+		return c16SetupFailure("execute", cfg.sql, err), append(tags, "setup_rejected"), nil
+	}
+	second := []any{1, "x", nil, 2.5} // second component of a composite key: shared between the goroutines
+	// pre-fill
+	nfill := 300 + rng.Intn(900)
+	if thorough {
+		nfill = 300 + rng.Intn(2500)
+	}
+	rows := make([]map[string]any, 0, nfill)
+	for i := 0; i < nfill; i++ {
+		r := map[string]any{"v": -i - 1}
+		for p, f := range j.tfields {
+			if p == 0 {
+				r[f] = "f" + strconv.Itoa(i)
+			} else {
+				r[f] = second[i%len(second)]
+			}
+		}
+		rows = append(rows, r)
+	}
+	explicit := rng.Intn(3) == 0
+	var src *stream.MemoryTableSource
+	var err error
+	if explicit {
+		src, err = s.RegisterTable(j.table, rows, j.tfields...)
+	} else {
+		src, err = s.RegisterTable(j.table, rows)
+	}
+	if err != nil {
+		return c16SetupFailure("register", cfg.sql, err), append(tags, "setup_rejected"), nil
+	}
+	regTok := append([]string{"1"}, c16RegKeys(j, explicit)...)
+	regTok = append(regTok, strconv.Itoa(len(rows)))
+	for _, r := range rows {
+		regTok = append(regTok, c16Row(r))
+	}
+	// the goroutines' programs, generated up front
+	ng := 2 + rng.Intn(2)
+	type cop struct {
+		kind byte // 'U' 'D' 'Y'
+		row  map[string]any
+		key  any // Delete: a single value or a []any
+		tok  string
+	}
+	ownKey := func(g, i int) any {
+		n := 1000*(g+1) + i
+		switch rng.Intn(8) {
+		case 0:
+			return n
+		case 1:
+			return int64(n)
+		case 2:
+			return float64(n)
+		case 3:
+			return uint32(n)
+		case 4:
+			return float32(n)
+		case 5:
+			return float64(n) + 0.5
+		default:
+			return "g" + strconv.Itoa(g) + "_" + strconv.Itoa(i)
+		}
+	}
+	keyTuple := func(g, i int) []any {
+		t := make([]any, len(j.tfields))
+		t[0] = ownKey(g, i)
+		for p := 1; p < len(t); p++ {
+			t[p] = second[rng.Intn(len(second))]
+		}
+		return t
+	}
+	idctr := int64(0)
+	streamRow := func(t []any) map[string]any {
+		idctr++
+		r := map[string]any{"id": idctr}
+		for p, f := range j.sfields {
+			r[f] = t[p]
+		}
+		return r
+	}
+	progs := make([][]cop, ng)
+	nkeys := 3 + rng.Intn(4)
+	for g := range progs {
+		nops := 150 + rng.Intn(250)
+		if thorough {
+			nops = 300 + rng.Intn(900)
+		}
+		vctr := 0
+		for n := 0; n < nops; n++ {
+			t := keyTuple(g, rng.Intn(nkeys))
+			switch r := rng.Intn(100); {
+			case r < 40:
+				vctr++
+				row := map[string]any{"v": 1000000*(g+1) + vctr}
+				for p, f := range j.tfields {
+					row[f] = t[p]
+				}
+				if rng.Intn(3) == 0 {
+					row["tag"] = []any{"red", "blue", nil}[rng.Intn(3)]
+				}
+				progs[g] = append(progs[g], cop{kind: 'U', row: row})
+			case r < 70:
+				if len(t) == 1 && rng.Bool() {
+					progs[g] = append(progs[g], cop{kind: 'D', key: t[0], tok: "S " + c16Tok(t[0])})
+				} else {
+					progs[g] = append(progs[g], cop{kind: 'D', key: t, tok: "T " + c16Tuple(t)})
+				}
+			default:
+				progs[g] = append(progs[g], cop{kind: 'Y', row: streamRow(t)})
+			}
+		}
+	}
+	resTok := func(m map[string]any, err error) string {
+		if err != nil {
+			return "X"
+		}
+		if m == nil {
+			return "D"
+		}
+		return "R " + c16Map(m)
+	}
+	// run them at the same time (on a machine with few CPUs: still several OS threads, so that a writer can be
+	// preempted inside an update)
+	if runtime.GOMAXPROCS(0) < 4 {
+		defer runtime.GOMAXPROCS(runtime.GOMAXPROCS(4))
+	}
+	outs := make([][]string, ng)
+	start := make(chan struct{})
+	var wg sync.WaitGroup
+	for g := range progs {
+		g := g
+		wg.Add(1)
+		go func() {
+			defer wg.Done()
+			<-start
+			for _, op := range progs[g] {
+				switch op.kind {
+				case 'U':
+					err := s.UpsertTable(j.table, op.row)
+					outs[g] = append(outs[g], "U", j.table, c16Row(op.row), b01(err == nil))
+				case 'D':
+					src.Delete(op.key)
+					outs[g] = append(outs[g], "D", j.table, op.tok)
+				default:
+					m, err := s.EmitSync(op.row)
+					outs[g] = append(outs[g], "Y", c16Row(op.row), resTok(m, err))
+				}
+			}
+		}()
+	}
+	close(start)
+	wg.Wait()
+	// after every update returned: every key of every goroutine (in two renderings), some pre-filled rows
+	var fin []string
+	probe := func(t []any) {
+		r := streamRow(t)
+		m, err := s.EmitSync(r)
+		fin = append(fin, "Y", c16Row(r), resTok(m, err))
+	}
+	for g := 0; g < ng; g++ {
+		for i := 0; i < nkeys; i++ {
+			for rep := 0; rep < 6; rep++ {
+				probe(keyTuple(g, i))
+			}
+		}
+	}
+	for n := 0; n < 12; n++ {
+		i := rng.Intn(nfill + 5)
+		t := make([]any, len(j.tfields))
+		t[0] = "f" + strconv.Itoa(i)
+		for p := 1; p < len(t); p++ {
+			t[p] = second[i%len(second)]
+		}
+		probe(t)
+	}
+	secs := []string{cfg.cfgTok, strings.Join(regTok, " ")}
+	for g := range outs {
+		secs = append(secs, strings.Join(outs[g], " "))
+	}
+	secs = append(secs, strings.Join(fin, " "))
+	tags = append(tags, fmt.Sprintf("concurrent_writers_%d_goroutines", ng))
+	return "C16 K " + strings.Join(secs, " # "), tags, nil
 }
 
 // one writer (UpsertTable ver 1..n, optionally a Delete after every third), one reader (EmitSync), concurrently
